@@ -30,7 +30,7 @@ def run(ctx):
     cases = []; pairs = []
     data = gen.jdump(INPUT)
     for i in range(n):
-        kind = rnd.choice(['set', 'set', 'preset', 'define', 'premacro', 'select_pos', 'pipe'])
+        kind = rnd.choice(['set', 'set', 'preset', 'define', 'premacro', 'select_pos', 'pipe', 'pipe3', 'shadow'])
         if kind in ('set', 'preset'):
             body = rnd.choice(BODIES); name = 's' if ':s' in body else 'x'
             val = rnd.choice(VALS[name])
@@ -52,6 +52,20 @@ def run(ctx):
             split = rnd.random() < 0.5
             a = lib.new_cfg(select=sels, split='.arr' if split else None)
             b = lib.new_cfg(select=['%s=r' % e], split='.arr' if split else None)
+        elif kind == 'pipe3':
+            # a stage that returns its input unchanged still makes that value the parent of the next stage
+            mid = rnd.choice(['.', '(filter . (> . 0))', '(default . 1)', '(? true . 0)', '(map . .)', '(take . 10)'])
+            last = rnd.choice(['(size ^)', '^', '^#0', '(push [] ^ ^^)', '^^.name', '(first ^)'])
+            first = rnd.choice(['.arr', '(values .obj)'])
+            a = lib.new_cfg(select=['(| %s %s %s)=r' % (first, mid, last)])
+            # expected: after the middle stage, ^ is the first stage's value and ^^ the original input
+            sub = last.replace('^^.name', '§N').replace('^^', '§I').replace('^', first).replace('§N', '.name').replace('§I', '.')
+            b = lib.new_cfg(select=['%s=r' % sub])
+        elif kind == 'shadow':
+            m1, m2 = rnd.sample(MACROS, 2)
+            if rnd.random() < 0.5: a = lib.new_cfg(select=['(define "m" %s (push [] @m (define "m" %s @m) @m))=r' % (m1, m2)])
+            else: a = lib.new_cfg(set=['@m=%s' % m1], select=['(push [] @m (define "m" %s @m) @m)=r' % m2])
+            b = lib.new_cfg(select=['(push [] %s %s %s)=r' % (m1, m2, m1)])
         else:
             ea, eb = rnd.choice(['.arr', '.name', '.obj', '(first .arr)']), rnd.choice(['^.name', '^', '.', '(size .)', '(? true ^^ 0)', '^^.name'])
             a = lib.new_cfg(select=['(| %s %s)=r' % (ea, eb)])
@@ -71,7 +85,8 @@ def run(ctx):
         if ra != rb:
             rel = {'set': '(set n v e) evaluates e as if every :n in scope were replaced by v', 'preset': '--set n=v evaluates e as if every :n were replaced by v',
                    'define': '(define n m e) evaluates e as if every @n in scope were replaced by the macro body', 'premacro': '--set @n=m evaluates e as if every @n were replaced by the macro body',
-                   'select_pos': 'every --select sees the same input and parents as the first one'}[kind]
+                   'select_pos': 'every --select sees the same input and parents as the first one', 'pipe3': '(| a b c): c sees b\'s value as input and a\'s value as its parent, also when b returns its input unchanged',
+                   'shadow': 'an inner (define n ..) shadows an outer binding of n inside its body only'}[kind]
             violations.append(viol(ca, cb, rel, json.dumps(ra)[:400], json.dumps(rb)[:400]))
     known = []
     for k in ctx['known']:
